@@ -230,7 +230,8 @@ struct Runner {
             }
         });
     }
-    void rotate(bool exp_block, const std::string& label, int to = 0) {
+    // mismatch: (exporter) the argument is of the other kind than the constructor's - a name for a descriptor exporter and vice versa
+    void rotate(bool exp_block, const std::string& label, int to = 0, bool mismatch = false) {
         if (to > 0) serial = to; else serial = maxserial + 1;      // "to": rotation onto a name already used (also the one in use)
         if (serial > maxserial) maxserial = serial;
         guarded(label, [&] {
@@ -238,7 +239,7 @@ struct Runner {
                 if (kind == "file") wr->rotate_output(name(serial));
                 else wr->rotate_output(open_fd(serial));
             } else {
-                if (kind == "file") ex->rotate_output(name(serial), exp_block);
+                if ((kind == "file") != mismatch) ex->rotate_output(name(serial), exp_block);
                 else ex->rotate_output(open_fd(serial), exp_block);
             }
         });
@@ -278,7 +279,7 @@ struct Runner {
                 BlockParameters bp; bp.storage_parameters.ticks_per_second = 1000; bp.storage_parameters.max_block_items = sc.value("max", 4);
                 ex->add_block_parameters(bp);
             });
-            else if (op == "rot") rotate(st.value("export", false), "rot", st.value("to", 0));
+            else if (op == "rot") rotate(st.value("export", false), "rot", st.value("to", 0), st.value("mismatch", false));
             else if (op == "rotbad") {
                 // a rotation that cannot succeed: the new name lies in a directory that does not exist (a descriptor
                 // that is not open); the call reports it, the outputs published so far are not touched again
